@@ -286,7 +286,7 @@ pub fn check_one(p: &SProg) -> Result<(), String> {
                         _ => ph.is_and_then(),
                     };
                     use quote::ToTokens;
-                    if !kind_ok || ph.extract_expr().to_token_stream().to_string() != norm_expr(&h.expr) {
+                    if !kind_ok || strip_parens(ph.extract_expr().clone()).to_token_stream().to_string() != norm_expr(&h.expr) {
                         Err(format!("handler parsed differently: written {} => {}", h.kind, h.expr))
                     } else {
                         Ok(())
